@@ -423,6 +423,41 @@ def check_capi(ctx, lib, c):
     expect(out0 == out1, "capi/%s/out=%s" % (name, pat), lambda: "aliased result differs: case=%r\n  distinct: %s\n  aliased:  %s" % (c, out0.hex(), out1.hex()))
 
 
+# ---- byte-buffer inputs that overlap the output object (hash-to-curve, identity derivation) -------------------------------
+HASH_OPS = ("g1affine_from_hash", "g2affine_from_hash", "lqibe_compute_id_from_hash")
+
+
+@st.composite
+def hash_alias_cases(draw):
+    op = draw(st.sampled_from(HASH_OPS))
+    n = 96 if op.startswith("g2") else 48
+    from . import c10
+    return {"op": op, "h": draw(c10.hash_int(n, F.Q))}
+
+
+def check_hash_alias(ctx, lib, c):
+    import ctypes
+    op = c["op"]
+    n = 96 if op.startswith("g2") else 48
+    data = c["h"].to_bytes(n, "big")
+    f = getattr(lib.dll, ("embedded_pairing_" + op) if op.startswith("lqibe") else (API + op))
+    f.restype = None
+    osz = lib.sizeof("G2Affine" if op.startswith("g2") else "G1Affine")
+    out_t = "G2Affine" if op.startswith("g2") else "G1Affine"
+    lib.A.write_operand(data)
+    lib.O.arm(osz)
+    f(lib.O.ptr, lib.A.ptr)
+    lib.O.check_guard(op, osz)
+    out0 = meaningful(lib, out_t, lib.O.read(osz))
+    # the hash bytes sit at the start of the object that receives the result
+    lib.B.fill(0xCD, osz)
+    lib.B.write(data)
+    f(lib.B.ptr, lib.B.ptr)
+    out1 = meaningful(lib, out_t, lib.B.read(osz))
+    ctx.count(c, True, "capi:%s|out=a" % op)
+    expect(out0 == out1, "capi/%s/out=a" % op, lambda: "result differs when the hash bytes are read from the output object: hash=%s" % data.hex())
+
+
 def prebuild(tier):
     PR.gt_pow_gen(3)
     C.gen_mul(1, 3)
@@ -433,7 +468,7 @@ def finish(evidence, agg):
     cells = {k: v for k, v in agg["classes"].items() if "|out=" in k}
     evidence["coverage"]["cells"] = len(cells)
     evidence["coverage"]["min_cell_count"] = min(cells.values()) if cells else 0
-    want = len(TABLE_CELLS) + len(IRREG) + len(CAPI_CELLS)
+    want = len(TABLE_CELLS) + len(IRREG) + len(CAPI_CELLS) + len(HASH_OPS)
     evidence["coverage"]["cells_expected"] = want
     evidence["coverage"]["exhaustive"] = False
 
@@ -441,5 +476,6 @@ def finish(evidence, agg):
 SUBCHECKS = [
     Sub("table", table_cases(), check_table, 24000, 300000, ("asm",), ("asm", "p64", "p32")),
     Sub("irregular", irreg_cases(), check_irreg, 4000, 50000, ("asm",), ("asm", "p64", "p32")),
+    Sub("hash_alias", hash_alias_cases(), check_hash_alias, 1500, 20000, ("asm",), ("asm", "p32")),
     Sub("capi", capi_cases(), check_capi, 6000, 70000, ("asm",), ("asm", "p64", "p32")),
 ]
